@@ -342,13 +342,20 @@ GATED_VERBS = (b"SPACK", b"GETWC", b"SETWC", b"REQRM")
 
 
 def _gate_job(job):
-    api, offset, queued = job
+    api, offset, queued = job[:3]
+    active = len(job) > 3 and bool(job[3])
     from ..rig import Rig
 
     rig = Rig(Chooser())
     if not rig.connect(60.0):
         raise core.HarnessError("C06 gates: stack did not connect")
     spa = rig.spa
+    if active:
+        # the configuration clients use while their UI is open: ping every 2 s, timeout 4 s, not-responding after 10 s
+        rig.loop.run_for(1.0)
+        with rig.loop.running():
+            gconfig.set_config_mode(True)
+        rig.loop.run_for(6.0)
     # run to just after a successful ping, then the spa goes dark
     n_ping = sum(1 for e in rig.man.events if e[1].name == "RUNNING_PING_RECEIVED")
     rig.loop.run_for(200.0, lambda: sum(1 for e in rig.man.events if e[1].name == "RUNNING_PING_RECEIVED") > n_ping)
@@ -378,7 +385,7 @@ def _gate_job(job):
         # watercare query (different verb from the one under test) a few seconds earlier, while
         # the gate is still open
         other = spa.async_get_watercare if api != "async_get_watercare" else spa.async_get_reminders
-        t_other = min(t_call - 3.0, deadline - 1.0)
+        t_other = min(t_call - 3.0, deadline - 1.0) if not active else min(t_call - 1.5, deadline - 0.5)
         rig.loop.run_until(t_other)
         rig.spawn(other(), name="HARNESS:blocker")
     rig.loop.run_until(t_call)
@@ -401,7 +408,8 @@ def _gate_job(job):
         if not ok_now:
             why = ("gate", f"{api} invoked at deadline{offset:+.1f}s (gate {'open' if gate_at_call else 'closed'}), "
                            f"{verb_of.decode()} first transmitted {t - deadline:.2f}s after the spa stopped answering pings"
-                           f"{' (queued behind a timing-out request)' if queued else ''}")
+                           f"{' (queued behind a timing-out request)' if queued else ''}"
+                           f"{' [active configuration]' if active else ''}")
     res = (verb_of in first, gate_at_call)
     rig.exit()
     rig.close()
@@ -409,7 +417,7 @@ def _gate_job(job):
         # the recorded defect is check-then-act: gate open when invoked, lock wait, late transmission.
         # A transmission for a call made while the gate was already closed is a different violation.
         cls = "open-at-call-then-lock-wait" if gate_at_call else "closed-at-call"
-        return (f"C06|gate|{api}|{cls}", why[1], {"mode": "gate", "api": api, "offset": offset, "queued": queued}), res
+        return (f"C06|gate|{api}|{cls}", why[1], {"mode": "gate", "api": api, "offset": offset, "queued": queued, "active": active}), res
     return None, res
 
 
@@ -514,12 +522,15 @@ def run(ctx):
     # long after the gate closed: past the not-responding report(s) of the ping loop
     offs += [8.0, 15.0, 40.0, 75.0, 130.0, 200.0]
     jobs = [(api, off, q) for api in GATED for off in offs for q in (False, True)]
+    # the same in the active configuration (gate window 2 x 2 s, library's own not-responding report at 10 s)
+    aoffs = [x / 10.0 for x in range(-12, 13, 4 if ctx.quick else 1)] + [2.0, 3.5, 5.0, 5.8, 6.2, 8.0, 15.0, 40.0]
+    jobs += [(api, off, q, True) for api in GATED for off in aoffs for q in (False, True)]
     sent_n = 0
     for (viol, res), job in zip(core.pmap(ctx, _gate_job, jobs, chunksize=2), jobs):
         if viol:
             ctx.violation(*viol)
         sent_n += 1 if res[0] else 0
-        states.add(("gate", job[0], job[2], res))
+        states.add(("gate", job[0], job[2], len(job) > 3, res))
     ctx.set("gate_runs", len(jobs))
     ctx.set("gate_runs_that_transmitted", sent_n)
     if sent_n == 0:
@@ -550,7 +561,7 @@ def replay(ctx, data):
         res = _full_job(((data["window"], data["scenario"]), [tuple(p) for p in data["prefix"]]))
         ctx.merge_violations(res["violations"])
     elif m == "gate":
-        v, _ = _gate_job((data["api"], data["offset"], data["queued"]))
+        v, _ = _gate_job((data["api"], data["offset"], data["queued"], data.get("active", False)))
         if v:
             ctx.violation(*v)
     elif m == "R10":
